@@ -113,6 +113,64 @@ CHECKS.update({
         note="trusted: TLC, Brackets.tla, TokSeq.tla, harness/outcome.py"),
 })
 
+CHECKS.update({
+    "C12": dict(
+        category="model_checking", design_ref="DESIGN.md section 5 C12, 3.9 (Session)",
+        technique="Session.tla (ParseBegin resets every component; reset necessity shown by TLC) with TLC-enumerated call histories replayed on one CParser instance; per-call hook traces validated against ParserTrace.tla (FreshStart)",
+        text="TLC checks HistoryIndependence on spec/Session.tla and, as a vacuity guard, that dropping the reset of any "
+             "component violates it; it enumerates every call history up to 3 (quick) / 4 (thorough) calls over a palette of 14 "
+             "programs that dirty each component. Every history is replayed on one instance and compared call by call with "
+             "fresh instances (AST incl. coordinates, or exception type and message; no node shared between results). Each call "
+             "of sampled histories is validated event by event against ParserTrace.tla, whose Begin action demands the initial "
+             "lexer state and whose lookups start from an empty scope table. Reused CLexer and CGenerator are compared with fresh ones.",
+        note="trusted: TLC, harness/proj.py; the palette texts are in harness/checks/c12.py"),
+    "C13": dict(
+        category="model_checking", design_ref="DESIGN.md section 5 C13, 3.9 (Session, several instances)",
+        technique="every schedule of Session.tla (TLC) replayed with a scheduling lexer injected through lexer=; per-instance event projections validated against ParserTrace.tla; Frame digest of module globals",
+        text="TLC enumerates every interleaving at token granularity of 2-3 (quick) / 2-4 (thorough) parses of short programs "
+             "with clashing typedef/object names, file names and #line directives (NonInterference and Frame checked on the "
+             "model); each schedule is replayed with a scheduling lexer (one thread per parse, parked in token()) and must give "
+             "the solo results. Random schedules of long programs are recorded in one event stream whose per-instance projections "
+             "must each be a behaviour of ParserTrace.tla; a digest of all mutable module/class-level objects must never change; "
+             "free-running threads with a 1 microsecond switch interval and interleaved CGenerator instances are compared with solo runs.",
+        note="trusted: TLC, the scheduling lexer (a 10-line CLexer subclass) and the digest function in harness/checks/c13.py"),
+    "C14": dict(
+        category="model_checking", design_ref="DESIGN.md section 5 C14, 3.10 (AstSchema, Traversal)",
+        technique="AstSchema.tla over the class table generated from _c_ast.cfg, enumerated by TLC and replayed on real node classes; recorded NodeVisitor visits validated against Traversal.tla",
+        text="The class table is generated from /repo/pycparser/_c_ast.cfg at check time; TLC enumerates every class x every "
+             "subset of child fields absent x sequence fields None/[]/1/2 elements and exports constructor order, attr_names and "
+             "the expected children list; each instance is built for real (sentinel values) and compared incl. iteration and "
+             "show(). NodeVisitor visit events recorded on ASTs of TLC-derived programs and the corpus, with and without "
+             "interception, are validated against the explicit-stack pre-order machine spec/Traversal.tla.",
+        note="trusted: TLC, the 30-line cfg reader in harness/proj.py"),
+    "C15": dict(
+        category="exploration", design_ref="DESIGN.md section 5 C15, 3.10 (AstStore)",
+        technique="every action sequence of AstStore.tla (TLC: NoSharing, Independence) replayed on real ASTs: repr/eval, pickle protocols 2..5, deepcopy, mutate, generate",
+        text="TLC enumerates every sequence of up to 3 (quick) / 4 (thorough) store actions over up to three live trees and checks "
+             "the aliasing invariants on the model; each sequence is replayed on ASTs of TLC-derived programs, corpus files and "
+             "literal-heavy programs (quotes, backslashes, non-ASCII): after every action each live tree must equal the value "
+             "version the model assigns it (coordinates included for pickle/deepcopy), share no node object with another tree, "
+             "and generate the expected C text.",
+        note="the byte-level codecs are exercised by the harness; the model decides aliasing and equality"),
+    "C16": dict(
+        category="exploration", design_ref="DESIGN.md section 5 C16, 3.5 (Families), 3.3 (TokStream)",
+        technique="pump cycles of the grammar enumerated by TLC (Families.tla), instantiated at doubling sizes and measured in Python call events; ReconsumptionBound of ParserTrace.tla on their traces",
+        text="spec/Families.tla holds the self-embedding structure of the grammar as pumps; TLC enumerates every simple cycle up "
+             "to length 2 (quick) / 3 (thorough); each family and 19 repetition/declarator families are parsed at doubling sizes "
+             "and the number of Python call events inside pycparser must at most double (x2.6). Traces of family instances are "
+             "validated against ParserTrace.tla with the re-consumption bound R=8. Lexer regex families are timed with wide margins.",
+        note="deterministic event counts, except the regex timing (0.5 s absolute, x3.5 per doubling)"),
+    "C19": dict(
+        category="exploration", design_ref="DESIGN.md section 5 C19, 3.11 (Pipeline)",
+        technique="configuration space and argv of Pipeline.tla enumerated by TLC; each configuration run through parse_file with a recording cpp stand-in; cpp output lexer traces validated against CLexTrace.tla",
+        text="TLC enumerates Header x Dialect x ArgForm exhaustively (all files under utils/fake_libc_include x 4 dialects x "
+             "{str, list}) and exports the argv parse_file must produce; every configuration is run for real: argv equal to the "
+             "model's, parse succeeds, result equals preprocessing and parsing by hand. Random header subsets/orders are followed "
+             "by declarations, casts and sizeof uses of every typedef name of _fake_typedefs.h. The lexer traces of preprocessed "
+             "headers are validated against CLexTrace.tla.",
+        note="cpp (gcc 12) is an uninterpreted function of its argv"),
+})
+
 PENDING = {}
 
 
